@@ -158,6 +158,9 @@ ObsWLoad == (Done("wload") /\ HasPrev) =>
             LET before == WLocContent(Q, R.ret.loc) IN Out(1).o = before.p /\ Out(1).tag = before.tag
 \* C10: weak_many returns handles to the receiver
 ObsWeakMany == Done("weak_many") => \A i \in 1..R.ret.nout : Out(i).o = R.ret.tgt
+\* conformance (not a verdict): between calls the count word is exactly owners + links (+ one token that a
+\* pending try_destruct owes), and a try_destruct is pending iff the count is zero or a token exists
+ObsWF == (\A t \in Thr : ~R.thr[t].busy) => WF
 \* no panic inside the library
 ObsNoPanic == ~Done("panic") /\ R.k # "abort"
 
@@ -169,7 +172,7 @@ Report ==
   /\ V("ObsUpgrade", ObsUpgrade) /\ V("ObsUpgradeNull", ObsUpgradeNull) /\ V("ObsFlag", ObsFlag)
   /\ V("ObsCas", ObsCas) /\ V("ObsCasTag", ObsCasTag) /\ V("ObsSwap", ObsSwap) /\ V("ObsLoad", ObsLoad)
   /\ V("ObsWCas", ObsWCas) /\ V("ObsWCasTag", ObsWCasTag) /\ V("ObsWSwap", ObsWSwap) /\ V("ObsWLoad", ObsWLoad)
-  /\ V("ObsWeakMany", ObsWeakMany) /\ V("ObsNoPanic", ObsNoPanic)
+  /\ V("ObsWeakMany", ObsWeakMany) /\ V("ObsNoPanic", ObsNoPanic) /\ V("ObsWF", ObsWF)
 Accepted == (TLCGet("stats").diameter = Len(Rec) /\ PrintT(<<"ACCEPTED", Len(Rec)>>))
             \/ PrintT(<<"REJECTED", TLCGet("stats").diameter, Len(Rec)>>)
 =============================================================================
